@@ -54,14 +54,14 @@ CLAIMED["C17"] = {
 CLAIMED["C01"] = {
   "text": "Proof on an operational model of the event-driven validator for the rule-free fragment (objectValidator's shrinking set of required keys, unknown key -> 206, arrayValidator's "
           "Child(min(i,last)) and 1203 on an empty example, literalValidator + checkNotAnEnum kind matrix incl. integer-for-float and null-with-nullable, anyNestedStructure), any depth "
-          "and size: C01_validate_iff_shape (validate = None <-> shape_ok, under no_nullable_container), C01_validate_shape_disagree_only_nullable (soundness needs no hypothesis), "
-          "C01_nullable_container_refuted (the excluded class is the known finding), C01_shape_ok_perm / C01_validate_perm (property order in the document is irrelevant), "
+          "and size: C01_validate_iff_shape (validate = None <-> shape_ok, UNCONDITIONAL since fix 3827ce7 repaired nullable containers), C01_nullable_container_accepts_null / "
+          "C01_non_nullable_container_rejects_null, C01_shape_ok_perm / C01_validate_perm (property order in the document is irrelevant), "
           "C01_keys_optional_by_default (the option only marks unmarked keys optional), C01_literal_cases, C01_empty_array_only_empty, C01_array_elements_by_min_index. Axiom-free. "
           "Tie: generated schemas to depth 5 with every optional/nullable/any mix under both configurations x conforming documents and typed mutations (drop/add/duplicate/reorder key, "
           "int<->float, kind swap, null injection, array truncate/extend, escaped key spellings, payloads under any) + a small exhaustive universe; library verdict and error code vs the "
           "extracted model, verdict vs shape_ok.",
   "note": "Trusted: Coq kernel; extraction; the python printer of schemas/documents and the wire encoding parsed inside Coq; the model is recursive over the document value rather than event-driven "
-          "(same error code for the first failing event is checked by the correspondence, positions are not). Known finding C01-nullable-container is exactly the class excluded by the theorem's hypothesis.",
+          "(same error code for the first failing event is checked by the correspondence, positions are not; for a nullable container the two-leaf outcome of Tree.FeedLeaves is written out in container_mismatch).",
   "technique": "Coq proof (operational validator model = declarative shape predicate, nested induction over documents) + generated/mutational correspondence on verdict and error code",
 }
 CLAIMED["C08"] = {
@@ -213,3 +213,18 @@ CLAIMED["C13"] = {
   "technique": "Coq theorems for document property order and whitespace + metamorphic check (equality across meaning-preserving respellings) for the schema half and string escapes (partial)",
 }
 NOT_APPLICABLE = {}
+
+# ---- additions of the second session (kept separate so that the first-session texts stay readable) ----
+CLAIMED["C02"]["text"] += (" Added: Text/Unquote.v models bytes.Unquote (unquoteBytes, getu4, utf8.DecodeRune/EncodeRune, utf16 surrogates): C02_length_is_decoded_length - for every spelling of a "
+                           "string value the length rules see the UTF-8 length of the value; C02_string_tokens_always_unquote - a token the JSON scanner accepts never makes unquoteBytes fail. "
+                           "The model runs against bytes.Unquote on structured spellings, malformed tokens and all tokens over a 10-byte alphabet to length 3 on every check.")
+CLAIMED["C13"]["text"] += (" Added: C13_escape_respelling / C13_utf8_roundtrip (Text/UnquoteProofs.v): any two admissible spellings of one string value (literal UTF-8, two-byte escapes, \\uXXXX in "
+                           "either case, surrogate pairs) are decoded to the same bytes, for strings of any length; C13_document_property_order no longer needs a hypothesis. The check also permutes "
+                           "the rules inside or rule-sets.")
+CLAIMED["C17"]["text"] += (" Added (Json/ViableProofs.v): C17_parse_error_at_first_non_viable_byte - Document.Check's model fails with 301 at p exactly when the prefix before p can be continued to an "
+                           "RFC 8259 text and the prefix including p cannot, and with 303 at the last byte exactly when the input is a viable but incomplete text; "
+                           "C17_non_viable_rejected_at_first, C17_early_end_reported_at_last_byte (the converses). Validation error positions are checked on planted mismatches incl. nullable containers.")
+CLAIMED["C01"]["text"] += " Since fix 3827ce7 there is no known finding for this property."
+CLAIMED["C15"]["text"] += (" Since fix 6ca17f0 (terminating construction in the example builder) there is no known finding; the check also runs every type graph of the C03 generators.")
+CLAIMED["C03"]["text"] += (" The check now also generates the reference forms {type: \"@T\"} and {or: [names / rule-sets]} with and without nullable, key shortcuts (required/optional, several matching keys) "
+                           "and several unnamed keys per object under every additionalProperties form; fixes 7566a1d and 59f50c1 came from these streams.")
